@@ -80,6 +80,9 @@ def main(tier, only=None):
     if (not only) or "const" in only:
         import c07_e2
         c07_e2.run(chk, tier)
+    if (not only) or "fconst" in only:
+        import c07_f
+        c07_f.run(chk, tier)
 
     if os.environ.get("VERIF_VERBOSE"):
         for o in chk.obl:
